@@ -652,7 +652,7 @@ func checkCloseBarrier(c *Ctx, w *world, sig string) {
 	if after := len(w.log().Snapshot()); after != before {
 		fail("silent-after-close", fmt.Sprintf("%d reporter calls after Close returned", after-before))
 	}
-	deadline := time.Now().Add(500 * time.Millisecond)
+	deadline := time.Now().Add(5 * time.Second) // generous: only a goroutine that really stays costs this time
 	for goroutinesContaining("(*scope).reportLoop") > 0 && time.Now().Before(deadline) {
 		time.Sleep(time.Millisecond)
 	}
